@@ -253,10 +253,10 @@ SUBS.append(
         rule='complete enumeration: every trajectory length 2..260 (quick) / 2..1100 (thorough) frames x 5 deterministic motion patterns (ballistic, zigzag, single hop at the first / last step, rest-then-run) of two atoms that cross cell faces, cell family/orientation/input form cycled with the length; MSD at every lag vs the direct definition, distances, tracer diffusivity',
         shards={'quick': 16, 'thorough': 16}))
 SUBS.append(
-    Sub(name='many-atoms', kind='hyp', run=run_many, strategy=many_cases,
+    Sub(name='many-atoms', kind='hyp', shrink=False, run=run_many, strategy=many_cases,
         rule='255 - 1025 (4097) atoms (around multiples of 256 and 512) x 2-12 (40) frames in all lattices, every atom with its own drift and wobble, one or three species, three input forms: MSD of every atom at every lag vs the direct definition, distances, tracer diffusivity (atom-count dependent code paths)',
         n={'quick': 4, 'thorough': 30}, shards={'quick': 6, 'thorough': 16}))
 SUBS.append(
-    Sub(name='long-trajectories', kind='hyp', run=run_long, strategy=long_cases,
+    Sub(name='long-trajectories', kind='hyp', shrink=False, run=run_long, strategy=long_cases,
         rule='12 000 - 131 072 (500 000) frames x 1-3 atoms in all lattices (drift + oscillation + one late hop, many face crossings): MSD at ~60 lags (0, 1, 2, 3, T-2, T-1, T/2, T/3, every power of two and its neighbours, 10-30 generated lags) vs the direct definition, distances and tracer diffusivity (size-dependent code paths, FFT padding, accumulated round-off)',
         n={'quick': 2, 'thorough': 6}, shards={'quick': 6, 'thorough': 16}))
